@@ -1,6 +1,7 @@
 package known
 
 import (
+	"regexp"
 	"strings"
 
 	"verifharness/model"
@@ -115,6 +116,31 @@ func init() {
 		return false
 	})
 
+	// composer: a caret range on a stable base treats pre-releases of the base
+	// version itself through a literal special case (^1.0.0 contains exactly
+	// the text "1.0b1"), pinned by composer/range_test.go "beta without hyphen
+	// in caret" together with "prerelease in caret". Predicate: the range has
+	// a caret term and one of the versions is a pre-release spelling with the
+	// same major.minor.patch as that term.
+	register("composer.caret_base_prerelease", func(c Case) bool {
+		if c.Eco != "composer" || len(c.Inputs) < 2 {
+			return false
+		}
+		for _, term := range strings.FieldsFunc(c.Inputs[0], func(r rune) bool { return r == ' ' || r == ',' || r == '|' }) {
+			if !strings.HasPrefix(term, "^") {
+				continue
+			}
+			base, _ := numericHead(strings.TrimPrefix(term[1:], "v"))
+			for _, v := range c.Inputs[1:] {
+				head, rest := numericHead(strings.TrimPrefix(strings.TrimSpace(v), "v"))
+				if head == base && composerPreRest.MatchString(rest) {
+					return true
+				}
+			}
+		}
+		return false
+	})
+
 	// pypi: the local version label is ignored by Compare. Pinned by
 	// pkg/spec/vers/pypi_test.go "different local also excluded per PEP 440"
 	// (vers:pypi/!=1.0.0+local1 must exclude 1.0.0+local2).
@@ -166,4 +192,31 @@ func comparatorBounds(r string) []string {
 		}
 	}
 	return out
+}
+
+var composerPreRest = regexp.MustCompile(`^-?(alpha|beta|RC|rc|a|b|dev)([.0-9+]|$)`)
+
+// numericHead returns the leading dotted number of s normalised to three
+// components without leading zeros ("1.0" -> "1.0.0") and the rest of s.
+func numericHead(s string) (string, string) {
+	i := 0
+	for i < len(s) && (s[i] == '.' || (s[i] >= '0' && s[i] <= '9')) {
+		i++
+	}
+	head, rest := strings.TrimRight(s[:i], "."), s[i:]
+	if len(head) < i {
+		rest = s[len(head):]
+	}
+	parts := strings.Split(head, ".")
+	for len(parts) < 3 {
+		parts = append(parts, "0")
+	}
+	for k, p := range parts {
+		p = strings.TrimLeft(p, "0")
+		if p == "" {
+			p = "0"
+		}
+		parts[k] = p
+	}
+	return strings.Join(parts[:3], "."), rest
 }
